@@ -24,6 +24,8 @@ RULE = (
     "(quick: n <= 5 plus a slice of n = 6)."
 )
 ASSUMPTIONS = [
+    "SitePattern `indices` with a multi-character data type (codons) raises TypeError on the pinned tree - column selection is only implemented for one-character states; a loud rejection, so that rewriting is not generated for codon data",
+    "the newick rooting comment [&U] is only written on trees the model treats as unrooted; [&R] on any tree",
     "non-reversible models are excluded from the re-rooting relation (it does not hold mathematically)",
     "the absolute value of L(A) is anchored by C01",
     "tolerance 1e-9 relative plus the measured conditioning slack of C01; cases with a branch length below 1e-14 are skipped and counted (C01's known finding)",
@@ -304,6 +306,11 @@ def apply(c, tr):
         return c, 1.0
     if k == "reroot":
         return reroot(c, tr["edge"], tr["frac"]), 1.0
+    if k == "annotation":
+        # the newick rooting comment: [&R] anywhere, [&U] on trees the model treats as unrooted
+        c = copy.deepcopy(c)
+        c["newick_prefix"] = tr["prefix"] if (tr["prefix"].startswith("[&R]") or c["tree"]["kind"].startswith("unrooted")) else "[&R] "
+        return c, 1.0
     raise ValueError(k)
 
 
@@ -311,6 +318,8 @@ def applicable(c, kind):
     t = c["tree"]["kind"]
     if c.get("indices") and kind in ("indices", "dup", "col_perm"):
         return False  # a column selection is already in force: positions refer to the stored alignment
+    if kind == "indices" and c["family"] == "codon":
+        return False  # column selection is implemented for one-character states only (TypeError otherwise: a loud rejection)
     if kind == "states":
         return c["tip"] in ("noamb", "states")
     if kind == "trifurcate":
@@ -321,7 +330,7 @@ def applicable(c, kind):
 
 
 @st.composite
-def pair_case(draw, force=None, families=("nucleotide", "nucleotide", "general", "aa")):
+def pair_case(draw, force=None, families=("nucleotide", "nucleotide", "general", "aa", "codon")):
     A = draw(phylo.like_case(families=families, nmax=None))
     if force == "reroot" and not applicable(A, "reroot"):
         A["tree"] = draw(phylo.tree_part(phylo.case_topo(A).n, ("unrooted_newick", "unrooted_tensor")))
@@ -335,7 +344,7 @@ def pair_case(draw, force=None, families=("nucleotide", "nucleotide", "general",
         # a dated newick with its own (not clock-like) branch lengths and keep_branch_lengths
         A["tree"]["keep"] = [draw(logu(0.3, 3.0)) for _ in range(2 * n - 2)]
     ncol = len(A["cols"])
-    kinds = ["taxa_perm", "seq_perm", "swap", "col_perm", "indices", "dup", "states", "trifurcate", "reroot", "reroot"]
+    kinds = ["taxa_perm", "seq_perm", "swap", "col_perm", "indices", "dup", "states", "trifurcate", "reroot", "reroot", "annotation"]
     kinds = [k for k in kinds if applicable(A, k)]
     chosen = [force] if force else []
     chosen += draw(st.lists(st.sampled_from(kinds), min_size=0 if force else 1, max_size=2))
@@ -356,6 +365,8 @@ def pair_case(draw, force=None, families=("nucleotide", "nucleotide", "general",
             ncol = ncol * trs[-1]["times"]
         elif k == "reroot":
             trs.append({"kind": k, "edge": draw(st.integers(0, 2 * n - 4)), "frac": draw(fl(0.01, 0.99))})
+        elif k == "annotation":
+            trs.append({"kind": k, "prefix": draw(st.sampled_from(["[&U] ", "[&U]", "[&R] ", "[&U] "]))})
         else:
             trs.append({"kind": k})
     return {"A": A, "trs": trs}
